@@ -22,7 +22,7 @@ assignments / device states — induction over the lists, no bounds.
 | batch read ≡ one at a time, same values                     | `batch_get_eq_single`, `batch_get_eq_single_on_parsed_program`; outside the set-of-names domain: `batch_get_any_names`, `batch_get_drops_repeated_spelling`; error paths: second halves of `batch_set_eq_single` / `batch_get_eq_single` |
 | touches exactly the bound registers                         | `touches_exactly_bound_registers`                       |
 | through the real driver layer; registers that do not exist  | `validated_accessors_eq_library_semantics`, `batch_eq_single_validated`, `nonexistent_register_refused`, `set_then_get` |
-| tables configured by hand; process start                   | `config_table_spec`, `start_with_params_eq_single`, `start_with_params_touches_every_parameter` |
+| tables configured by hand; process start                   | `config_table_spec`, `start_with_params_eq_single`, `start_with_params_touches_every_parameter`, `start_with_params_writes_given_or_zero` |
 | parsing yields a result                                     | `parse_terminates` (unconditional, ≤ `length fs + 1` opens), `include_cycle_parsed_once` |
 -/
 namespace QmiModel.Adbasic
@@ -887,6 +887,39 @@ theorem start_with_params_touches_every_parameter (b : Dict Str Desc) (dv dvB : 
     exact ⟨kv.1, ⟨kv, hkv, rfl⟩, hl⟩
   · rintro ⟨key, ⟨kv, hkv, rfl⟩, hl⟩
     exact ⟨_, ⟨kv, hkv, rfl⟩, hl⟩
+
+/-- **start_with_params_writes_given_or_zero.** For the table of an accepted program: after the parameter
+part of `start_with_params(**kwargs)` succeeded, *every* program parameter's register holds the value of
+the keyword that equals its name ignoring case — whatever spelling the caller used (the first such
+keyword, if the caller gave several spellings) — and the integer `0` exactly when no spelling of the name
+was given.  (Together with `start_with_params_eq_single`: the same as `set_par` one name at a time, then start.) -/
+theorem start_with_params_writes_given_or_zero (syms : List Sym) (b : Binding) (h : analyze syms = .ok b)
+    (dv dvB : Dev) (kwargs : Dict Str Val)
+    (hs : setParMultiple b.param dv (startParams b.param kwargs) = ⟨dvB, .ok ()⟩) :
+    ∀ key d, dictGet b.param key = some d →
+      dvB.readReg d = (match lookupCI kwargs key with | some v => v | none => .int 0) := by
+  obtain ⟨one, _, _, _⟩ := binding_injective syms b h
+  have hnd := analyze_param_keys_nodup h
+  have own : ∀ key d, (key, d) ∈ b.param → lookupCI b.param key = some d := fun key d hm =>
+    name_denotes_one_register syms b h key key d (dictGet_of_mem_nodup b.param key d hnd hm) rfl
+  have hinj : ∀ p ∈ startParams b.param kwargs, ∀ q ∈ startParams b.param kwargs,
+      lookupCI b.param p.1 = lookupCI b.param q.1 → p = q := by
+    intro p hp q hq he
+    simp only [startParams, List.mem_map] at hp hq
+    obtain ⟨⟨k1, d1⟩, m1, rfl⟩ := hp
+    obtain ⟨⟨k2, d2⟩, m2, rfl⟩ := hq
+    simp only at he ⊢
+    rw [own k1 d1 m1, own k2 d2 m2] at he
+    injection he with he
+    have := (one k1 k2 d1 d2 (dictGet_of_mem_nodup _ _ _ hnd m1) (dictGet_of_mem_nodup _ _ _ hnd m2)).2 he
+    subst this
+    rfl
+  intro key d hk
+  have hm := dictGet_mem _ _ _ hk
+  have hmem : (key, (match lookupCI kwargs key with | some v => v | none => Val.int 0)) ∈ startParams b.param kwargs := by
+    simp only [startParams, List.mem_map]
+    exact ⟨(key, d), hm, rfl⟩
+  exact (set_then_get b.param dv dvB _ hinj hs).1 _ hmem d (own key d hm)
 
 /-! ## 5. The include walk -/
 
